@@ -70,6 +70,107 @@ theorem C18_buffer_destroy_enabled (s : Buffer.St) (h : s.destroyed = false) :
     { s with inQ := [], hand := none, outW := [], destroyed := true }
   exact ⟨a1, a2, a3⟩
 
+/-! ### every way down the stop path is short and ends finished
+
+`C18_client_can_always_finish` gives one plan.  Here: once the stop is requested, *every* run made of the stop path's actions —
+the sender enters `collectLeftovers` (having seen the stop in a `select`, a send / ping error after the connection was
+aborted, or a closed acknowledger), the pending ACK read fails, the acknowledger is aborted after the bounded wait (once: the
+code escalates once per session) or sees its channel closed, the leftovers are merged, the worker hands them back — is at
+most six steps long, and it cannot stop before `OnFinished`: in every state on the way one of these actions is enabled. -/
+
+def stopActs : List Act :=
+  [.beginCollect, .pushStop, .pushAckEnded, .ackErr, .escalate, .ackAbort, .ackChanClosed, .finishCollect, .workerFinal]
+
+/-- the stop path escalates (`ackerAbort.Signal()` + `abortConn`) once per session -/
+def stepS (s : St) (a : Act) : Option St :=
+  match a, s.sess with
+  | .escalate, some x => if x.abort then none else step s a
+  | _, _ => step s a
+
+def runS (s : St) : List Act → Option St
+  | [] => some s
+  | a :: as => match stepS s a with | some s' => runS s' as | none => none
+
+def b2n (b : Bool) : Nat := if b then 1 else 0
+
+/-- bounded waits left until `OnFinished` -/
+def nu (s : St) : Nat :=
+  b2n (!s.finished) + (match s.sess with
+    | none => 0
+    | some x => 1 + b2n x.collecting.isNone + b2n (!x.ackEnded) + b2n (!x.abort) + b2n x.ackCur.isSome)
+
+theorem nu_le (s : St) : nu s ≤ 6 := by
+  unfold nu b2n
+  cases s.sess with
+  | none => simp; split <;> omega
+  | some x => simp only; repeat' split
+              all_goals omega
+
+theorem stepS_dec (s s' : St) (a : Act) (ha : a ∈ stopActs) (h : stepS s a = some s') :
+    nu s' < nu s ∧ s'.stop = s.stop := by
+  obtain ⟨queue, left, sess, confirmed, handed, taken, stop, finished, nextConn, hist⟩ := s
+  simp only [stopActs, List.mem_cons, List.mem_nil_iff, or_false] at ha
+  cases sess with
+  | none =>
+    rcases ha with rfl | rfl | rfl | rfl | rfl | rfl | rfl | rfl | rfl <;> simp [stepS, step] at h
+    obtain ⟨⟨hs, hf⟩, rfl⟩ := h
+    simp [nu, b2n, hf]
+  | some x =>
+    obtain ⟨conn, normal, lastC, sentOk, ackChan, chanClosed, ackCur, pending, ackEnded, abort, connClosed, collecting⟩ := x
+    rcases ha with rfl | rfl | rfl | rfl | rfl | rfl | rfl | rfl | rfl
+    all_goals
+      cases collecting <;> cases ackEnded <;> cases abort <;> cases ackCur <;>
+        simp [stepS, step] at h <;>
+        (try (obtain ⟨_, rfl⟩ := h)) <;> (try subst h) <;> simp [nu, b2n] <;> (try (cases finished <;> simp))
+
+theorem stop_progress (s : St) (hstop : s.stop = true) (hf : s.finished = false) : ∃ a ∈ stopActs, (stepS s a).isSome = true := by
+  obtain ⟨queue, left, sess, confirmed, handed, taken, stop, finished, nextConn, hist⟩ := s
+  simp only at hstop hf
+  subst hstop hf
+  cases sess with
+  | none => exact ⟨.workerFinal, by simp [stopActs], by simp [stepS, step]⟩
+  | some x =>
+    obtain ⟨conn, normal, lastC, sentOk, ackChan, chanClosed, ackCur, pending, ackEnded, abort, connClosed, collecting⟩ := x
+    cases collecting with
+    | none => exact ⟨.beginCollect, by simp [stopActs], by simp [stepS, step]⟩
+    | some prev =>
+      cases ackEnded with
+      | true => exact ⟨.finishCollect, by simp [stopActs], by simp [stepS, step]⟩
+      | false =>
+        cases ackCur with
+        | some cur => exact ⟨.ackErr, by simp [stopActs], by simp [stepS, step]⟩
+        | none =>
+          cases abort with
+          | true => exact ⟨.ackAbort, by simp [stopActs], by simp [stepS, step]⟩
+          | false => exact ⟨.escalate, by simp [stopActs], by simp [stepS, step]⟩
+
+theorem runS_bound : ∀ (acts : List Act) (s s' : St), (∀ a ∈ acts, a ∈ stopActs) → runS s acts = some s' →
+    acts.length + nu s' ≤ nu s ∧ s'.stop = s.stop
+  | [], s, s', _, h => by simp [runS] at h; subst h; exact ⟨by simp, rfl⟩
+  | a :: as, s, s', hall, h => by
+    simp only [runS] at h
+    cases hs : stepS s a with
+    | none => simp [hs] at h
+    | some s1 =>
+      simp only [hs] at h
+      obtain ⟨d1, e1⟩ := stepS_dec s s1 a (hall a (by simp)) hs
+      obtain ⟨d2, e2⟩ := runS_bound as s1 s' (fun b hb => hall b (by simp [hb])) h
+      exact ⟨by simp only [List.length_cons]; omega, e2.trans e1⟩
+
+/-- **C18 (the stop path is short and has one end).** From any state in which a stop was requested: every run of stop-path
+actions has at most six steps, and a run that cannot be continued has reached `finished`. -/
+theorem C18_every_stop_run_ends_finished (s : St) (hstop : s.stop = true) (acts : List Act) (hacts : ∀ a ∈ acts, a ∈ stopActs)
+    (s' : St) (h : runS s acts = some s') :
+    acts.length ≤ 6 ∧ ((∀ a ∈ stopActs, stepS s' a = none) → s'.finished = true) := by
+  obtain ⟨hb, hs⟩ := runS_bound acts s s' hacts h
+  refine ⟨by have := nu_le s; omega, ?_⟩
+  intro hstuck
+  cases hf : s'.finished with
+  | true => rfl
+  | false =>
+    obtain ⟨a, ha, h2⟩ := stop_progress s' (by rw [hs]; exact hstop) hf
+    rw [hstuck a ha] at h2; cases h2
+
 /-! ### fact obligations (Tie B) -/
 
 /-- every `select` of the client's sender and worker loop has a case on the stop signal or a closed channel -/
